@@ -49,6 +49,8 @@ pub enum TypeErrorEnum {
     UnusedFn(String),
     /// A top-level function calls itself recursively.
     RecursiveFnDef(String),
+    /// The specified struct or enum contains itself (directly or through other types).
+    RecursiveTypeDef(String),
     /// No struct or enum declaration with the specified name exists.
     UnknownStructOrEnum(String),
     /// No struct declaration with the specified name exists.
@@ -134,6 +136,9 @@ impl std::fmt::Display for TypeErrorEnum {
             )),
             TypeErrorEnum::RecursiveFnDef(name) => f.write_fmt(format_args!(
                 "Function '{name}' is declared recursively, which is not supported"
+            )),
+            TypeErrorEnum::RecursiveTypeDef(name) => f.write_fmt(format_args!(
+                "Type '{name}' contains itself, which is not supported"
             )),
             TypeErrorEnum::UnknownStructOrEnum(name) => {
                 f.write_fmt(format_args!("Unknown struct or enum '{name}'"))
@@ -354,6 +359,58 @@ impl TypedFns {
     }
 }
 
+/// Returns the structs and enums that contain themselves as a field, directly or indirectly.
+fn recursive_type_defs(
+    struct_defs: &HashMap<String, StructDef>,
+    enum_defs: &HashMap<String, EnumDef>,
+) -> Vec<(String, MetaInfo)> {
+    fn named_types<'a>(ty: &'a Type, names: &mut Vec<&'a str>) {
+        match ty {
+            Type::Struct(name) | Type::Enum(name) => names.push(name),
+            Type::Array(elem, _) | Type::ArrayConst(elem, _) | Type::ArrayConstExpr(elem, _) => {
+                named_types(elem, names)
+            }
+            Type::Tuple(fields) => fields.iter().for_each(|ty| named_types(ty, names)),
+            _ => {}
+        }
+    }
+    let fields_of = |name: &str| -> Vec<&str> {
+        let mut names = vec![];
+        if let Some(struct_def) = struct_defs.get(name) {
+            for (_, ty) in struct_def.fields.iter() {
+                named_types(ty, &mut names);
+            }
+        }
+        if let Some(enum_def) = enum_defs.get(name) {
+            for variant in enum_def.variants.iter() {
+                if let Variant::Tuple(_, types) = variant {
+                    types.iter().for_each(|ty| named_types(ty, &mut names));
+                }
+            }
+        }
+        names
+    };
+    let metas = struct_defs
+        .iter()
+        .map(|(name, def)| (name, def.meta))
+        .chain(enum_defs.iter().map(|(name, def)| (name, def.meta)));
+    let mut recursive = vec![];
+    for (name, meta) in metas {
+        let mut visited = HashSet::new();
+        let mut stack = fields_of(name);
+        while let Some(next) = stack.pop() {
+            if next == name {
+                recursive.push((name.clone(), meta));
+                break;
+            }
+            if visited.insert(next) {
+                stack.extend(fields_of(next));
+            }
+        }
+    }
+    recursive
+}
+
 impl UntypedProgram {
     /// Type-checks the parsed program, returning either a typed AST or type errors.
     pub fn type_check(&self) -> Result<TypedProgram, Vec<TypeError>> {
@@ -489,6 +546,18 @@ impl UntypedProgram {
                 });
             }
             enum_defs.insert(enum_name.clone(), EnumDef { variants, meta });
+        }
+
+        let recursive_type_defs = recursive_type_defs(&struct_defs, &enum_defs);
+        if !recursive_type_defs.is_empty() {
+            for (name, meta) in recursive_type_defs {
+                let e = TypeErrorEnum::RecursiveTypeDef(name);
+                errors.push(Some(TypeError::new(e, meta)));
+            }
+            // the size of a recursive type is not defined, nothing that uses it can be checked
+            let mut errors: Vec<TypeError> = errors.into_iter().flatten().collect();
+            errors.sort();
+            return Err(errors);
         }
 
         let mut untyped_defs = Defs::new(&const_types, &struct_defs, &enum_defs);
